@@ -3,7 +3,6 @@ package main
 import (
 	"go/ast"
 	"strconv"
-	"strings"
 )
 
 func (t *tr) checkObjWritable(o *object) {
@@ -132,6 +131,9 @@ func (t *tr) callNamed(pn, key string, recv *val, ce *ast.CallExpr) callRes {
 		return r
 	}
 	sm := t.g.summaryOf(pn, key, t)
+	if sm.failed {
+		t.fail("calls %s.%s, whose translation failed", pn, key)
+	}
 	var argv []*val
 	if recv != nil {
 		argv = append(argv, t.recvAdjust(sm.params[0].t, recv))
@@ -290,5 +292,3 @@ func (t *tr) external(pn, key string, recv *val, ce *ast.CallExpr) (callRes, boo
 	}
 	return callRes{}, false
 }
-
-func joinArgs(a []string) string { return strings.Join(a, " ") }
